@@ -380,10 +380,10 @@ Definition run_suite_from (rk : rkind) (vexpr : vfun) (m : xmode) (cap : nat) (n
   | Done p' => Finished (verdict_of vexpr p') p'
   | Dead d p' => Crashed d p'
   end.
-Definition run_two (rk : rkind) (vexpr : vfun) (m : xmode) (cap : nat) (n1 n2 : node) : result * result :=
-  let r1 := run_suite_from rk vexpr m cap n1 p_init in
+Definition run_two (rk : rkind) (vexpr : vfun) (m1 m2 : xmode) (cap : nat) (n1 n2 : node) : result * result :=
+  let r1 := run_suite_from rk vexpr m1 cap n1 p_init in
   match r1 with
-  | Finished _ p1 => (r1, run_suite_from rk vexpr m cap n2 p1)
+  | Finished _ p1 => (r1, run_suite_from rk vexpr m2 cap n2 p1)
   | Crashed _ _ => (r1, r1)
   end.
 
